@@ -24,6 +24,7 @@ EXPLANATION = (
     ' Round 4: (12) LOOPFRESH on calc_coords; (13) the row bounds of Edit.move_cursor_to_coords (C09.10); (14) the UTF-8 scan bound (C11.12).'
     ' Round-4 triage: (15) case-mapped alphabet tests are conjoined with isascii(), every accepting return of NumEdit.valid_char depends on the cursor position (nothing in front of a leading minus sign), validating regexes use fullmatch and re.ASCII with IGNORECASE; C10.6 now accepts any accepting return that is dominated by a bounding test (false alarm on the repaired valid_char corrected). Round 5: (16) column tests against the end of a layout segment are half-open.'
     ' Round 6: (17) shift_line: after an existing padding segment was folded into the amount every result is built from the line without that segment.'
+    ' Round 7: (19) = C11.16 (character stepping consults within_double_byte() before answering for non-UTF-8 bytes) and (20) = C14.5 (emit calls every handler) are part of this check too.'
 )
 NOT_DECIDED = "Equality with the reference editor: row moves, preferred-column arithmetic, clip-mode view shift, click-to-offset mapping, leading-zero trimming arithmetic of IntEdit/NumEdit."
 ASSUMPTIONS = []
@@ -408,6 +409,20 @@ def rule_segment_half_open(ctx: Ctx) -> RuleResult:
 from ..tables import INV_RENDER_EXCEPTIONS as _INV_RENDER_EXC  # noqa: E402
 
 
+def _shared(ctx: Ctx):
+    """Two clauses of neighbouring properties that the editor model needs as well: cursor keys step over whole
+    characters in the double-byte encodings only if move_prev_char / move_next_char consult within_double_byte()
+    before they answer (C11.16), and every 'change' / 'postchange' listener hears about a modification only if emit()
+    calls every handler (C14.5)."""
+    from . import c11, c14
+
+    a = c11.rule_dbe_consulted(ctx)
+    a.clause = "C10.19"
+    b = c14.rule_emit_total(ctx)
+    b.clause = "C10.20"
+    return [a, b]
+
+
 def rule_shift_fold(ctx: Ctx) -> RuleResult:
     """Edit scrolls the cursor row with shift_line(line, amount).  A line that already starts with a padding segment
     (n, None) gets that padding *folded* into the amount (`amount += segs[0][0]`): from then on the old padding is
@@ -455,6 +470,7 @@ def run(ctx: Ctx):
         rule_same_text(ctx),
         rule_clamped_cursor_read(ctx),
         rule_shift_fold(ctx),
+        *_shared(ctx),
         _row_range(ctx),
         _utf8_bound(ctx),
         loopfresh.run_loopfresh(p, "C10.12", "C10", floor=1),
